@@ -10,11 +10,12 @@
 set -u
 jobs=$(readlink -f "$1"); res=$(readlink -f -m "$2"); W=${3:-5}
 here="$(cd "$(dirname "$0")/.." && pwd)"
-mkdir -p /tmp/par; : > "$res"
-queue=/tmp/par/queue.$$; cp "$jobs" $queue; lock=/tmp/par/lock.$$; : > $lock
+P=${PAR_BASE:-/tmp/par}
+mkdir -p $P; : > "$res"
+queue=$P/queue.$$; cp "$jobs" $queue; lock=$P/lock.$$; : > $lock
 
 worker() {
-  k=$1; sb=/tmp/par/w$k
+  k=$1; sb=$P/w$k
   rm -rf $sb/verif; git -C /repo worktree remove --force $sb/repo 2>/dev/null; rm -rf $sb; mkdir -p $sb
   git -C /repo worktree add -q --detach $sb/repo HEAD || exit 2
   rsync -a --exclude .git --exclude out --exclude '.cache/run' --exclude '.cache/target-miri' "$here"/ $sb/verif/
